@@ -129,7 +129,7 @@ sharness! {
             p.set_hdr(b0, b12, b14, b15, last);
             accept_body(&mut src, &pre, p.bytes(), send, recv);
         };
-        for_v5hdr!(all, sel, run);
+        for_v5hdr!(more, sel, run);
     }
 }
 
@@ -223,15 +223,5 @@ sharness! {
     }
 }
 
-sharness! {
-    #[kani::unwind(30)]
-    fn c08_request_v5() {
-        stubs::symbolic_clock();
-        stubs::symbolic_rng();
-        let (mut src, pre) = any_source(PvClass::V5Family);
-        let t0 = tokio::time::Instant::now();
-        let acts = timer_step!(v5fam, src, pre);
-        let t1 = tokio::time::Instant::now();
-        request_check(&src, &pre, &acts, t0, t1);
-    }
-}
+// (`c08_request` for NTPv5 requests needs the NTPv5 request serialiser, which does not finish
+// symbolic execution even from a concrete state: see c12.rs.)
